@@ -3536,6 +3536,10 @@ func (t *Topic) notifySubChange(uid, actor types.Uid, isChan bool,
 			// Notify subscriber of topic's online status.
 			if t.cat == types.TopicCatGrp && !isChan {
 				t.presSingleUserOffline(uid, newWant&newGiven, "?unkn+en", nilPresParams, "", false)
+			} else if t.cat == types.TopicCatP2P {
+				// Muting told the user's 'me' topic to discard updates from the other user ("off+dis"):
+				// accept them again and ask for the other user's current status.
+				t.presSingleUserOffline(uid, newWant&newGiven, "?unkn+en", nilPresParams, "", false)
 			} else if t.cat == types.TopicCatMe {
 				// User is visible online now, notify subscribers.
 				t.presUsersOfInterest("on+en", t.userAgent)
